@@ -97,9 +97,11 @@ CODEC_ASSUME = ["schemas enter as the generator's intermediate JSON (the Java sc
 CODEC_TRUST = ["reflection bridge mc/bind (checked for identity AV->Go->AV on every case)", "reference codecs mc/ref", "schema universes mc/schema"]
 
 
-def codec_check(prop, part, level, rule, assumptions=(), gens=("v2", "root"), deadline_q=900, deadline_t=3300):
+def codec_check(prop, part, level, rule, assumptions=(), gens=("v2", "root"), deadline_q=900, deadline_t=3300, universes=None):
     def fn(sc, tier, replay, t0):
         universe = "codec-full" if tier == "thorough" else "codec-quick"
+        if universes:
+            universe = universes[1] if tier == "thorough" else universes[0]
         reports = []
         gl = list(gens)
         if replay:
@@ -133,3 +135,7 @@ C10 = codec_check("C10", "C10", "model_checking",
     rule="for every wrapper record: the pool of all reduced-alphabet deviation<=1 values, their copies, copies with maps rebuilt in every insertion order, nil<->empty swaps and JSON/ROR2 round-tripped copies; every ordered pair is compared with the generated Equals (must coincide with structural equality, which is an equivalence, hence symmetry and transitivity), and Equal pairs must have equal ComputeHash; hashes of a common sub-pool are compared across all shard processes; states = pool values, transitions = Equals calls; a class is the pair outcome",
     assumptions=["pairs containing a NaN are only checked for totality (NaN never equals itself)",
                  "transitivity follows from agreement with the reference equivalence on every pair of the pool; triples are not enumerated separately"])
+
+
+C13 = codec_check("C13", "C13", "model_checking", universes=("defaults", "defaults"),
+    rule="defaults universe: 63 (field type, default literal) pairs placed directly, in a nested required record, in an included record, two include levels deep and only-in-include; per record every subset of defaulted positions supplied (with a non-default value) or omitted, decoded from reference documents by the JSON, ROR2 and untyped-value readers and compared with the reference parse of the schema literal; constructor instances; every ordered pair of independently obtained instances (constructor / JSON decode / ROR2 decode) is checked for aliasing by mutating the first in place; states = (record, subset), transitions = decode calls; a class is (reader | maker pair, outcome)")
